@@ -58,3 +58,95 @@ def run(ctx):
         "Def-use edge facts of every control construct's __teal__ compared with a reference lowering; operand order/arity at emission "
         "sites; pattern rules on NormalizeBlocks/sortBlocks/flattenBlocks/replaceOutgoing. Behaviour over inputs is not decided."
     )
+
+
+# ------------------------------------------------------------------------------------------
+from rules.emitcommon import get_sites  # noqa: E402
+
+# ops whose FromOp operand count legitimately differs from the op's pops, one line of reason each
+ARITY_JUSTIFIED = {
+    "retsub": "retsub pops nothing: the optional operand is the routine's return value, left on the stack for the caller",
+    "callsub": "callsub's stack effect is the callee's: the operands are the callee's arguments",
+}
+
+
+# (construct, op) whose operand count/order is justified by reading, one line of reason each
+SITE_JUSTIFIED = {
+    ("class ScratchStackStore", "store"): "stack store: consumes the value the preceding multi-value op left on the stack (only built by MultiValue / ScratchSlot.store() without value, which C05 excludes)",
+    ("ScratchSlot.store->ScratchStackStore", "store"): "same: the raw stack-store escape hatch",
+}
+ORDER_JUSTIFIED = {
+    "class ScratchStore:stores:order": "index_expression is a trailing optional constructor parameter; `stores` takes the slot index below the value, and every caller passes it by keyword",
+}
+
+
+def r01_1_operands(ctx):
+    ctx.rule("R01.1", "every op expression passes exactly the op's stack operands, in the order of the public factory's parameters")
+    S = get_sites(ctx.model)
+    for site in S.class_sites + S.factory_sites:
+        if site.operands is None:
+            continue
+        ctx.analysed(site.em.func.fq)
+        for op in site.ops:
+            if op.startswith("?"):
+                continue
+            sig = S.sig(op)
+            if sig is None:
+                continue
+            construct = f"{site.construct}:{op}"
+            if op in ARITY_JUSTIFIED or (site.construct, op) in SITE_JUSTIFIED:
+                ctx.ok("R01.1", construct, {"justified": ARITY_JUSTIFIED.get(op) or SITE_JUSTIFIED[(site.construct, op)]}, site.where)
+                continue
+            for alt in site.operands:
+                if any(o.kind == "star" for o in alt):
+                    continue
+                # operands typed none (Comment) contribute nothing to the stack
+                eff = [o for o in alt if S.nested_type(o, site.em.res) != "none"]
+                ctx.check(
+                    len(eff) == len(sig["pops"]),
+                    "R01.1",
+                    construct,
+                    f"op '{S.teal_name(op)}' pops {len(sig['pops'])} value(s) but the site supplies {len(eff)}: {[o.text for o in eff]}",
+                    site.where,
+                    fact={"op": op, "operands": [o.text for o in eff]},
+                )
+                # order: parameters of the entry point must be forwarded in increasing position
+                entry_params = None
+                if site.level == "factory" and site.entry is not None:
+                    entry_params = [p.lstrip("*") for p in site.entry.all_params()]
+                    if site.entry.cls is not None and "staticmethod" not in site.entry.decorators() and entry_params:
+                        entry_params = entry_params[1:]
+                else:
+                    init = ctx.model.resolve_method(site.cls, "__init__")
+                    if init is not None:
+                        entry_params = [p.lstrip("*") for p in init.all_params()][1:]
+                if entry_params is None:
+                    continue
+                pos = []
+                for o in eff:
+                    if o.kind == "param" and o.param is not None and o.param.lstrip("*") in entry_params:
+                        pos.append((entry_params.index(o.param.lstrip("*")), o.sub if o.sub is not None else -1))
+                if len(pos) >= 2 and construct + ":order" in ORDER_JUSTIFIED:
+                    ctx.ok("R01.1", construct + ":order", {"justified": ORDER_JUSTIFIED[construct + ":order"]}, site.where)
+                elif len(pos) >= 2:
+                    ctx.check(
+                        all(a < b for a, b in zip(pos, pos[1:])),
+                        "R01.1",
+                        construct + ":order",
+                        f"stack operands {[o.text for o in eff]} are not in the order of the parameters {entry_params}",
+                        site.where,
+                        fact={"operands": [o.text for o in eff], "params": entry_params},
+                    )
+    ctx.require_min("R01.1", 150)
+
+
+_run_wiring_only = run
+
+
+def run(ctx):  # noqa: F811
+    r01_3_wiring(ctx)
+    r01_1_operands(ctx)
+    return (
+        "Def-use edge facts of every control construct's __teal__ compared with a reference lowering; operand order/arity at emission "
+        "sites; pattern rules on NormalizeBlocks/sortBlocks/flattenBlocks/replaceOutgoing. Behaviour over inputs is not decided."
+    )
